@@ -263,6 +263,11 @@ impl Monitor for C18 {
         // before: for is_match calls on pool patterns outside the known-defect regions the reference
         // model gives a second, history-free opinion
         for (op, exp) in ops.iter().zip(expected.iter()) {
+            if cfg!(miri) {
+                // the interpreter is ~1000x slower; the reference model and its tables over all
+                // scalar values are exercised on the ordinary build
+                break;
+            }
             if let (Kind::IsMatch, Res::Bool(got)) = (&op.kind, exp) {
                 let (p, f) = POOL[pool_idx[op.re]];
                 if f.contains('q') {
